@@ -22,7 +22,8 @@ RULE = ("random networks of 2-7 nodes (45% complete), periods 0.5-3, dissipation
         "set-up and after every firing: exactly one pending event per node (ids in bijection with nodes), due within one period (+ half a unit of the fifth "
         "decimal), the fired node due exactly one period later; at the end the firing log against the tap stream and the phase range; on complete networks the "
         "number of distinct phases never increases and the largest group never shrinks. non-trivial = >= 2 nodes firing and >= 4 events; distinct = distinct spec")
-PARTIAL = ["'due no more than one period ahead' is a theorem (firePosted_sched) under two stated hypotheses on the arithmetic (a computed firing time never "
+PARTIAL = ["known finding K4: for a period below 1 off the 1e-5 grid the monotonicity clause fails on the unchanged code; it is judged for the other periods only",
+           "'due no more than one period ahead' is a theorem (firePosted_sched) under two stated hypotheses on the arithmetic (a computed firing time never "
            "exceeds ub t = one rounded period after t; ub is monotone): facts about doubles that are exercised by the oracle, not proved",
            "the monotonicity of synchrony on complete networks is checked on the real code by the oracle; in Lean: a bumped node's new firing time is a "
            "function of the time and its old firing time only (cascade_step, sync_pair) and the counting argument over the bumped nodes of one cascade "
@@ -47,6 +48,15 @@ def tie(ctx):
 
 def search(ctx, hint):
     return sc.search_with(ctx, hint, [(f's{k}', ['pulse', 200]) for k in range(8)], driver='Pulse.lean', script='run_pulse.py')
+
+
+def confirm_known(ctx, entry):
+    import json, os
+    spec = json.load(open(os.path.join(ctx.root, entry['replay'])))['spec']
+    p = os.path.join(ctx.run, 'known.json'); json.dump([spec], open(p, 'w'))
+    rs = sc.run_jobs(ctx, [('known', ['replay', p])], driver='Pulse.lean', script='run_pulse.py')
+    v = [v for x in rs if not x.get('err') for v in x['viol']]
+    return dict(reproduced=any(x['oracle'] == entry['signature'] for x in v))
 
 
 def replay(ctx, rep):
